@@ -2,13 +2,17 @@
 import json, os
 from common import *
 
+def execfam_replay(path):
+    import execfam
+    return execfam.replay_one(path)
+
 def run(rep, tier, seed):
     wd = spec_scratch()
     exe = build_harness()
     rep.rule = ("per delimiter configuration (default; [[ ]] with default comments; [[ ]] with [* *]; <% %> with <# #>): ALL byte "
                 "strings of length <=5 (quick) / <=6 (thorough) over the configuration's delimiter bytes plus '-', space, newline, "
                 "'x', and ALL token strings of <=4 / <=5 tokens over {LD, RD, LC, RC, '- ', ' -', whitespace runs, identifiers, text, "
-                "lone delimiter bytes}, and token strings behind 5 header shapes of leading import clauses and whitespace; the contract classifies each as rendering a text, a parse error (unclosed comment) or "
+                "lone delimiter bytes}, the Gen_C10 histories (literal text around failed try bodies and across executions), and token strings behind 5 header shapes of leading import clauses and whitespace; the contract classifies each as rendering a text, a parse error (unclosed comment) or "
                 "unspecified (action body other than one identifier; not emitted); non-trivial: contains an action or comment "
                 "opener; distinct by (configuration, source)")
     for c in "ABCD":
@@ -23,11 +27,17 @@ def run(rep, tier, seed):
                 for i, line in enumerate(f):
                     if i == 20000 and fam == "LexTok":
                         rep.sample({"cfg": c, "vector": json.loads(line)})
-            replay_vectors(rep, exe, "replay-C03", vec, extra_args=[c])
+            replay_vectors(rep, exe, "replay-C03", vec, extra_args=[c], shards=4)
+    # literal text must also survive the interpreter unchanged: nothing added by an earlier failed try or execution
+    import execfam
+    execfam.gen_and_replay(rep, wd, exe, "Gen_C10.tla", "C03_texts_across_executions", {"Depth": 1}, {"Kinds": "WrapKinds"},
+                           extra_inv=["SpecPure"], trace_execs=0)
     rep.exhaustive = True
 
 def replay(path):
     d = json.load(open(path))
+    if d["case"].get("replay_cmd") == "replay-exec":
+        return execfam_replay(path)
     case = d["case"]
     exe = build_harness()
     wd = scratch()
